@@ -473,3 +473,39 @@ Theorem C16_tick_writes_are_attempts :
   att_incs q q' = Some (map pkey o).
 Proof. exact tick_q_writes. Qed.
 Print Assumptions C16_tick_writes_are_attempts.
+
+(* EXACTLY ONCE, IN ORDER — HISTORIES OF ANY LENGTH.  The bound "< 2^15 submissions per direction" of
+   C16_exactly_once_in_order is replaced by the PACKET-LIFETIME hypothesis [fresh_run]: every packet is fresh at the
+   moment the network delivers it (Proofs.fresh_data / fresh_ack):
+     data packet  — among the sender's submissions there is one with the packet's Ns (mod 2^16) and body whose index is
+                    less than 2^15 away from the receiver's next expected index;
+     any packet   — its Nr (mod 2^16) denotes some k <= what its writer has been handed that is less than 2^15 away from
+                    every message still in the acknowledged side's queue.
+   I.e. no packet older than 2^15 submissions is still in the network and fewer than 2^15 messages are queued
+   unacknowledged.  Then for every configuration, origins, write faults, free choices and every honest execution — any
+   number of submissions, any number of wrap-arounds of the sequence space: prefix property both ways, acknowledged =>
+   handed over, and a side that never declared dead has lost nothing (everything that left its queue was handed to the
+   peer's machine).  C16_bounded_runs_are_fresh: every run covered by the old theorem satisfies the hypothesis.
+   Not machine-checked: a concrete fresh run longer than 2^15 submissions (the witness in each fresh_* is the packet's
+   true index, which exists as long as the packet is younger than 2^15 submissions). *)
+Theorem C16_exactly_once_unbounded :
+  forall ai am ar az aw bi bm br bz bw oa ob evs,
+  honest evs = true ->
+  fresh_run oa ob (init_sys (ai, am, ar, az, aw) (bi, bm, br, bz, bw) oa ob) evs ->
+  let s := run false (init_sys (ai, am, ar, az, aw) (bi, bm, br, bz, bw) oa ob) evs in
+  (exists rest, e_sub (s_a s) = e_del (s_b s) ++ rest) /\
+  (exists rest, e_sub (s_b s) = e_del (s_a s) ++ rest) /\
+  (forall i, In i (e_acked (s_a s)) -> (i < length (e_del (s_b s)))%nat) /\
+  (forall i, In i (e_acked (s_b s)) -> (i < length (e_del (s_a s)))%nat) /\
+  (forall x, e_dead (ep s x) = 0%nat ->
+     (length (e_sub (ep s x)) - length (c_q (e_ch (ep s x))) <= length (e_del (ep s (peer x))))%nat).
+Proof. exact exactly_once_unbounded. Qed.
+Print Assumptions C16_exactly_once_unbounded.
+
+(* the hypothesis is not vacuous and strictly weaker than the old bound: every honest run with fewer than 2^15
+   submissions per direction (e.g. wrap_run, bringup) is a fresh run *)
+Theorem C16_bounded_runs_are_fresh :
+  forall oa ob evs s,
+  sys_inv oa ob s -> honest evs = true -> bounded (run false s evs) -> fresh_run oa ob s evs.
+Proof. exact bounded_run_is_fresh. Qed.
+Print Assumptions C16_bounded_runs_are_fresh.
